@@ -15,9 +15,62 @@ def register(R):
             ("backlog-drained", "len(write_backlog.items) == 0", "C04"),
             ("plaintext-handed-to-tls-is-exactly-the-backlog-in-order", "ghost.TLSOUT == old(ghost.TLSOUT) + flat(old(write_backlog.items))", "C04 C12"),
         ],
-        raises={
-            "OSError": [("interrupted-write-loses-and-duplicates-nothing: written ++ still-queued == before", cons, "C04 C12")],
-        },
+        raises={k: [("interrupted-write-loses-and-duplicates-nothing: written ++ still-queued == before", cons, "C04 C12")]
+                for k in ("ssl.SSLWantReadError", "ssl.SSLWantWriteError", "ssl.SSLZeroReturnError", "ssl.SSLError")},
         modifies=["ghost.TLSOUT", "write_backlog.items"],
         tags="C04 C12",
     )
+
+    # ------------------------------------------------------------------ the retry loop instantiated at the write operation
+    TLS = "easynetwork/lowlevel/api_async/transports/tls.py"
+    SL, RL = "self.__transport_send_lock.held_by_me", "self.__transport_recv_lock.held_by_me"
+    locks_free = f"not {SL} and not {RL}"
+    mods = ["ghost.tls_cause", "ghost.WIRE", "ghost.IN", "ghost.recv_calls", "ghost.EOF", "ghost.io_errors", "ghost.TLSOUT", "ghost.locks_held",
+            "self._read_bio.eof", "self._read_bio.pending", "self._write_bio.eof", "self._write_bio.pending",
+            "self._AsyncTLSStreamTransport__transport_send_lock.held_by_me", "self._AsyncTLSStreamTransport__transport_recv_lock.held_by_me",
+            "self._AsyncTLSStreamTransport__incoming_reader.buffer.data"]
+    consA = "ghost.TLSOUT + flat(args[1].items) == old(ghost.TLSOUT) + flat(old(args[1].items))"
+    R.contract(
+        "AsyncTLSStreamTransport._retry_ssl_method", variant="write",
+        params={"ssl_object_method": f"fn:{TLS}:AsyncTLSStreamTransport.__write_all_to_ssl_object", "args": "tuple[SSLObjectModel,deque]"},
+        result="obj",
+        requires=[("locks-free", locks_free)],
+        loops={1: {"inv": [f"not {SL}", f"not {RL}", consA]}},
+        ensures=[("backlog-drained", "len(args[1].items) == 0", "C04"),
+                 ("plaintext-handed-to-tls-is-exactly-the-backlog-in-order", "ghost.TLSOUT == old(ghost.TLSOUT) + flat(old(args[1].items))", "C04 C12"),
+                 ("locks-released", locks_free, "C12")],
+        raises={"BaseException": [("a-failed-or-cancelled-flush-loses-and-duplicates-nothing: written ++ still-queued == before", consA, "C04 C12"),
+                                  ("locks-released", locks_free, "C12")]},
+        modifies=mods + ["args[1].items"],
+        tags="C04 C12",
+    )
+    consS = "ghost.TLSOUT + flat(self._data_deque.items) == old(ghost.TLSOUT) + flat(old(self._data_deque.items))"
+    modsS = mods + ["self._data_deque.items"]
+    R.contract(
+        "AsyncTLSStreamTransport.__flush_data_to_send",
+        requires=[("locks-free", locks_free)],
+        ensures=[("backlog-drained", "len(self._data_deque.items) == 0", "C04"),
+                 ("plaintext-handed-to-tls-is-exactly-the-backlog-in-order", "ghost.TLSOUT == old(ghost.TLSOUT) + flat(old(self._data_deque.items))", "C04 C12")],
+        raises={"BaseException": [("a-failed-or-cancelled-flush-loses-and-duplicates-nothing", consS, "C04 C12")]},
+        modifies=modsS,
+        env={"callee_variant": {"AsyncTLSStreamTransport._retry_ssl_method": "write"}},
+        tags="C04 C12",
+    )
+    for name, par, ptype, added in (("send_all", "data", "bytes", "old(data)"), ("send_all_from_iterable", "iterable_of_data", "bytesseq", "flat(old(iterable_of_data))")):
+        R.contract(
+            f"AsyncTLSStreamTransport.{name}",
+            params={par: ptype},
+            requires=[("locks-free", locks_free)],
+            ensures=[("everything-queued-before-then-this-data-in-order-exactly-once",
+                      f"ghost.TLSOUT == old(ghost.TLSOUT) + flat(old(self._data_deque.items)) + {added}", "C04 C12"),
+                     ("backlog-drained", "len(self._data_deque.items) == 0", "C04")],
+            raises={
+                "ConnectionAbortedError": [("refused-while-closing-without-queueing-anything (or the wrapped transport failed with this error)",
+                                            f"(old(self.__closing) and ghost.TLSOUT == old(ghost.TLSOUT) and self._data_deque.items == old(self._data_deque.items))"
+                                            f" or ghost.TLSOUT + flat(self._data_deque.items) == old(ghost.TLSOUT) + flat(old(self._data_deque.items)) + {added}", "C04")],
+                "BaseException": [("a-failed-or-cancelled-send-keeps-its-unsent-bytes-queued-in-order: written ++ still-queued == before ++ data",
+                                   f"ghost.TLSOUT + flat(self._data_deque.items) == old(ghost.TLSOUT) + flat(old(self._data_deque.items)) + {added}", "C04 C12")],
+            },
+            modifies=modsS,
+            tags="C04 C12",
+        )
